@@ -204,9 +204,13 @@ func c01History(retry string, pb int) vx.Scenario {
 	return vx.Scenario{Name: "c01/history/big-then-two-with-" + retry, PB: pb, Delay: true, MaxSteps: 60000, Single: pb == 0,
 		Setup: func(s *vs.Sched) func(*vs.Result) vx.Exec {
 			w := newWorld(s)
-			w.lists = []listReply{{ids: []string{"z"}}, {ids: []string{"a", "b"}, after: "z"}, {ids: []string{"c"}, after: "a"}}
+			// the two concurrent requests are listed a moment after the first upload was acknowledged: whatever
+			// the agent does when an upload ends has happened by then
+			w.lists = []listReply{{ids: []string{"z"}}, {ids: []string{"a", "b"}, after: "z", settle: 50 * time.Millisecond}, {ids: []string{"c"}, after: "a"}}
 			big := strings.Repeat("Z", 6000)
 			w.backend["z"] = &backendPlan{body: big, trailer: http.Header{"X-Checksum": {"checksum-of-z"}}}
+			w.backend["b"] = &backendPlan{noLength: true}
+			w.backend["c"] = &backendPlan{noLength: true}
 			w.uploadFault["a"] = retry
 			w.startAgent()
 			return func(r *vs.Result) vx.Exec {
